@@ -65,7 +65,7 @@ structure DB where
   links : List Link
   /-- (class, id) of the instances the connection's cache holds -/
   cache : List (Nat × Nat)
-deriving Repr
+deriving DecidableEq, Repr
 
 def Schema.cls (S : Schema) (k : Nat) : Cls := S.getD k ⟨[], []⟩
 def Schema.fk (S : Schema) (k f : Nat) : FK := (S.cls k).fks.getD f ⟨0, .keep⟩
@@ -124,7 +124,7 @@ inductive Res where
   | ok (db : DB)
   | refused (db : DB)   -- SQLObjectIntegrityError, with the state it leaves behind
   | fuel (db : DB)      -- RecursionError
-deriving Repr
+deriving DecidableEq, Repr
 
 /-- step 2f: `for row in results: row.destroySelf()`; a row deleted meanwhile is not visited -/
 def destroyRows (rec : DB → Nat → Nat → Res) (k : Nat) : List Nat → DB → Res
@@ -158,13 +158,16 @@ def delRow (db : DB) (c i : Nat) : DB :=
   { db with rows := db.rows.filter (fun r => !(r.cls == c && r.id == i)),
             cache := db.cache.filter (fun x => !(x.1 == c && x.2 == i)) }
 
+/-- one activation of `destroySelf`, the recursive calls going to `rec` -/
+def destroyStep (S : Schema) (rec : DB → Nat → Nat → Res) (db : DB) (c i : Nat) : Res :=
+  let db1 : DB := { db with links := delOwnLinks S c i db.links }
+  match procDeps S rec c i (dependents S c) db1 with
+  | .ok db2 => .ok (delRow db2 c i)
+  | r => r
+
 def destroy (S : Schema) : Nat → DB → Nat → Nat → Res
-  | 0, db, _, _ => .fuel db
-  | n + 1, db, c, i =>
-    let db1 : DB := { db with links := delOwnLinks S c i db.links }
-    match procDeps S (destroy S n) c i (dependents S c) db1 with
-    | .ok db2 => .ok (delRow db2 c i)
-    | r => r
+  | 0 => fun db _ _ => .fuel db
+  | n + 1 => destroyStep S (destroy S n)
 
 /-- `Class.get(id)` afterwards: a cached instance is returned without looking at the table -/
 def reachable (db : DB) (c i : Nat) : Bool := db.cache.contains (c, i) || present db c i
